@@ -37,6 +37,8 @@ META = {
 META['explanation'] += ' ' + 'R2t: text classes, every attribute the parser fills is written by the composer and back. R8: DnsRecordTxt.compose evaluated over text lengths around every multiple of 255 (chunks of at most 255 octets whose concatenation is the text). R9: equality - the class providing __eq__ (explicit, or attrs generated), the names it compares, against the instance state the class chain stores and the composer reads; classes without any value equality. Length links: a length field the parser uses must be derived by the composer from the size of the data it writes (affine link, sub-parser window, tabulated clamp / condition); a stored or cached number is a finding.'
 META['explanation'] += ' ' + 'R10: SCSV fold tabulated through the class defaults. R11: a default that reads the clock is evaluated through default factory, composer and parser and must come back equal. R12: an optional part keyed on a flag by one side is keyed on the same flag by the other (element-wise after splitting optional groups). R13: a field the parser fills with parse_numeric(..., bool) has a bool converter or validator.'
 
+META['explanation'] += ' ' + 'R2 also: a parsed field that reaches no argument of the constructed object, a constant written in place of an attribute the parser stores as read, items written sorted / reversed. R14: numeric presence by truth value. R15: flag words and timestamps (shared with C11.R4/R5). R16: ECDSA points (shared with C07.R12). R17: validators in the position of a default. R18: adjacent optional text parts with the same introducer.'
+
 HERE = os.path.dirname(os.path.dirname(os.path.abspath(__file__)))
 
 
